@@ -198,6 +198,8 @@ int read_macho(
     return -1;
   }
 
+  const uint64_t file_length = file.get_file_length();
+
   macho_header.magic_number = file.get_int32();
 
   if (macho_header.magic_number != 0xfeedface &&
@@ -243,6 +245,15 @@ int read_macho(
     macho_load_command.type = file.get_int32();
     macho_load_command.size = file.get_int32();
 
+    // A truncated or damaged file must not keep the loops below going
+    // past the end of the file.
+    if ((uint64_t)file.tell() > file_length || macho_load_command.size < 8)
+    {
+      printf("Mach-O Error: load command %d is not inside the file\n", i);
+      file.close_file();
+      return -1;
+    }
+
     switch (macho_load_command.type)
     {
       case 0x00000001:
@@ -254,10 +265,23 @@ int read_macho(
 
         for (uint32_t n = 0; n < macho_segment_load.section_count; n++)
         {
-          macho_read_section(macho_section, file, bits);
+          if (macho_read_section(macho_section, file, bits) != 0)
+          {
+            printf("Mach-O Error: section %d is not inside the file\n", n);
+            file.close_file();
+            return -1;
+          }
 
           if (strcmp(macho_section.section_name, "__text") == 0)
           {
+            if (macho_section.offset > file_length ||
+                macho_section.size > file_length - macho_section.offset)
+            {
+              printf("Mach-O Error: __text is not inside the file\n");
+              file.close_file();
+              return -1;
+            }
+
             long marker = file.tell();
             file.set(macho_section.offset);
 
@@ -281,6 +305,15 @@ int read_macho(
 
         uint32_t strtab = macho_symtab.string_table_offset;
         char name[128];
+
+        if (macho_symtab.symbol_table_offset > file_length ||
+            (uint64_t)macho_symtab.symbol_count * (bits == 32 ? 12 : 16) >
+              file_length - macho_symtab.symbol_table_offset)
+        {
+          printf("Mach-O Error: symbol table is not inside the file\n");
+          file.close_file();
+          return -1;
+        }
 
         long marker = file.tell();
         file.set(macho_symtab.symbol_table_offset);
